@@ -101,10 +101,26 @@ func mkUnits(k media.Kind, p media.Params, tagTrack, idx int, ra bool, size int)
 // then encodes the segments. tagBase makes payload tags unique across streams.
 func (s *Stream) Build(nSeg int, segLeadSamples int, tagBase int) error {
 	lead := s.Tracks[0]
-	for _, t := range s.Tracks {
-		if t.Kind.IsVideo() {
-			lead = t
-			break
+	if s.Container == "ts" {
+		// the client only knows H264 and MPEG-4 audio in MPEG-TS
+		for _, t := range s.Tracks {
+			if t.Kind == media.H264 || t.Kind == media.AAC {
+				lead = t
+				break
+			}
+		}
+		for _, t := range s.Tracks {
+			if t.Kind == media.H264 {
+				lead = t
+				break
+			}
+		}
+	} else {
+		for _, t := range s.Tracks {
+			if t.Kind.IsVideo() {
+				lead = t
+				break
+			}
 		}
 	}
 	segTicks := int64(segLeadSamples) * lead.SampleDur
@@ -211,6 +227,11 @@ func (s *Stream) encodeTS(nSeg int, lead *Track) error {
 			tracks = append(tracks, &mpegts.Track{Codec: &mpegts.CodecH264{}})
 		case media.AAC:
 			tracks = append(tracks, &mpegts.Track{Codec: &mpegts.CodecMPEG4Audio{Config: t.AAC}})
+		case media.H265:
+			// legal in MPEG-TS but not supported by the client under test
+			tracks = append(tracks, &mpegts.Track{Codec: &mpegts.CodecH265{}})
+		case media.Opus:
+			tracks = append(tracks, &mpegts.Track{Codec: &mpegts.CodecOpus{ChannelCount: 2}})
 		default:
 			return fmt.Errorf("codec %s cannot be put in the synthetic MPEG-TS stream", t.Kind)
 		}
@@ -227,9 +248,14 @@ func (s *Stream) encodeTS(nSeg int, lead *Track) error {
 		for _, sm := range s.segOrder(seg, lead) {
 			t := s.Tracks[sm.Track]
 			var err error
-			if t.Kind == media.H264 {
+			switch t.Kind {
+			case media.H264:
 				err = w.WriteH264(tracks[sm.Track], sm.PTS&mask, sm.DTS&mask, sm.Units)
-			} else {
+			case media.H265:
+				err = w.WriteH265(tracks[sm.Track], sm.PTS&mask, sm.DTS&mask, sm.Units)
+			case media.Opus:
+				err = w.WriteOpus(tracks[sm.Track], sm.PTS&mask, sm.Units)
+			default:
 				err = w.WriteMPEG4Audio(tracks[sm.Track], sm.PTS&mask, sm.Units)
 			}
 			if err != nil {
